@@ -391,7 +391,7 @@ class FixedList(Shape):
             n = len(self.elems)
         else:
             self.elems = [elem] * n
-        self.elem, self.n, self.np = self.elems[0] if self.elems else None, n, np
+        self.elem, self.n, self.np = (self.elems[0] if self.elems else None), n, np
 
 
 class ListOf(Shape):
